@@ -889,6 +889,62 @@ pub mod awkward_compact_unit {
         metas![S, E]
     }
 }
+/// A derive expanded inside `macro_rules!`: the recorded `type_name` of a field contains
+/// `$crate` and is not parsable Rust - legal input (polkadot's SessionKeys has such names).
+pub mod awkward_dollar_crate {
+    use super::*;
+    pub trait Tr {
+        type Out: TypeInfo + 'static;
+    }
+    impl Tr for u8 {
+        type Out = u32;
+    }
+    macro_rules! decl {
+        () => {
+            #[derive(TypeInfo)]
+            pub struct InMacro {
+                pub boxed: Box<<u8 as $crate::corpus::awkward_dollar_crate::Tr>::Out>,
+                pub plain: <u8 as $crate::corpus::awkward_dollar_crate::Tr>::Out,
+                pub opt: Option<Box<<u8 as $crate::corpus::awkward_dollar_crate::Tr>::Out>>,
+            }
+            #[derive(TypeInfo)]
+            pub enum InMacroE {
+                A(Box<<u8 as $crate::corpus::awkward_dollar_crate::Tr>::Out>),
+            }
+        };
+    }
+    decl!();
+    pub fn metas() -> Vec<MetaType> {
+        metas![InMacro, InMacroE]
+    }
+}
+/// Modules named with raw identifiers: the registry path keeps the `r#` prefix.
+pub mod awkward_rawmod {
+    use super::*;
+    pub mod r#async {
+        use super::*;
+        #[derive(TypeInfo)]
+        pub struct Config {
+            pub v: u8,
+        }
+        pub mod r#type {
+            use super::*;
+            #[derive(TypeInfo)]
+            pub enum Kind {
+                A,
+                B(Config),
+            }
+        }
+    }
+    #[derive(TypeInfo)]
+    pub struct User {
+        pub c: r#async::Config,
+        pub k: r#async::r#type::Kind,
+    }
+    pub fn metas() -> Vec<MetaType> {
+        metas![User]
+    }
+}
 pub mod awkward_cow {
     use super::*;
     /// A user type whose identifier happens to be `Cow`.
@@ -1066,6 +1122,8 @@ pub fn families() -> Vec<Entry> {
         ("awkward_duration", awkward_duration::metas()),
         ("awkward_phantom", awkward_phantom::metas()),
         ("awkward_cow", awkward_cow::metas()),
+        ("awkward_dollar_crate", awkward_dollar_crate::metas()),
+        ("awkward_rawmod", awkward_rawmod::metas()),
         ("awkward_compact_unit", awkward_compact_unit::metas()),
         ("awkward_cow_generic", awkward_cow_generic::metas()),
         (
